@@ -167,6 +167,15 @@ Theorem C08_abandoned_run_did_not_advance : forall fuel bad nxt s s', run_loop_r
   clock s' < stop s'.
 Proof. exact run_loop_r_raised. Qed.
 
+(* REFUSED DRIVER CALLS ARE INERT: a step / take_steps / run_until / run_for refused by its argument checks leaves the
+   stepping state (clock, step size, listeners, logs, step count) exactly as it was, so any number of them, anywhere in a
+   session, can be deleted without changing any later step - for every step-size rule and every session *)
+Theorem C08_refused_step_inert : forall fuel nxt s, do_sop fuel nxt ORefused s = Ok s.
+Proof. exact refused_step_inert. Qed.
+Theorem C08_refused_calls_deletable : forall fuel nxt ops s,
+  run_sops fuel nxt ops s = run_sops fuel nxt (filter (fun o => negb (is_refused o)) ops) s.
+Proof. intros. apply refused_calls_deletable. Qed.
+
 (* the comparison Coq makes between an observed call sequence and the model's (up to a permutation inside each bucket)
    means what it says: exactly the model's listeners with multiplicity, bucket by bucket *)
 Theorem C08_comparison_sound : forall expected obs, same_up_to_buckets expected obs = true ->
@@ -202,7 +211,8 @@ Proof. vm_compute. reflexivity. Qed.
 (* a session with a step size that changes (2, then 3 from clock 12 on): run_until 11 (1 step: 10 -> 12), run_until 12 (none),
    run_until 16 (2 steps: 15, 18), run_until 3 (none) *)
 Example demo_session_variable_step :
-  match interactive_session 9 (table_nxt [(12, 3)]) [11; 12; 16; 3] (mk_sim 10 100 2 demo_comps) with
+  match interactive_session 9 (table_nxt [(12, 3)]) [OUntil 11; ORefused; OUntil 12; OUntil 16; ORefused; OUntil 3]
+                            (mk_sim 10 100 2 demo_comps) with
   | Ok s => (nsteps s, clock s, stepsz s) | _ => (-1, 0, 0) end = (3, 18, 3).
 Proof. vm_compute. reflexivity. Qed.
 (* listener 2005 (component 2's time_step hook, bucket 5) raises from clock 13 on: step 1 (clock 10) completes, step 2 is
@@ -244,6 +254,8 @@ Print Assumptions C08_interactive_run_agrees.
 Print Assumptions C08_run_until_count.
 Print Assumptions C08_run_until_stops_at_end.
 Print Assumptions C08_comparison_sound.
+Print Assumptions C08_refused_step_inert.
+Print Assumptions C08_refused_calls_deletable.
 Print Assumptions C08_raising_listener_abandons_step.
 Print Assumptions C08_step_without_raise.
 Print Assumptions C08_run_without_raisers.
